@@ -1134,6 +1134,15 @@ func (field *fieldDataTxtPtr) ReadFrom(ch BytesChannel) (int, error) {
 	}
 	n++
 
+	// A text pointer length of zero marks a NULL value, no further
+	// information is sent.
+	if txtPtrLen == 0 {
+		field.txtPtr = nil
+		field.timeStamp = nil
+		field.value = nil
+		return n, nil
+	}
+
 	field.txtPtr, err = ch.Bytes(int(txtPtrLen))
 	if err != nil {
 		return 0, ErrNotEnoughBytes
